@@ -109,6 +109,11 @@ func c14FaultyAtoms() []c14Atom {
 		{"split(value, ',') = split(value, ',')", 'B', "= on lists"},
 		{"json(value) > json(value)", 'B', "ordering on JSON"},
 		{"split(value, ',') ^= 'a'", 'B', "^= on a list"},
+		{"true in (true, false)", 'B', "IN on Booleans"},
+		{"is_int(value) in (true)", 'B', "IN on Booleans"},
+		{"(key = 'a') in (true, false)", 'B', "IN on Booleans"},
+		{"json(value) in (json(value))", 'B', "IN on JSON"},
+		{"split(value, ',') in (split(value, ','))", 'B', "IN on lists"},
 	}
 }
 
@@ -204,6 +209,9 @@ func c14KeywordFaults() []c14Case {
 	for _, q := range []string{
 		"select nosuchagg(1) where true", "select count() where true", "select sum(1, 2) where true", "select count(1), quantile(float(value)) where true",
 		"select key where key = 'a' order by nosuch", "select key, sum(int(value)) where true", "select key where true group by key",
+		// aggregate functions outside a select list
+		"select * where count(1) > 0", "select key where sum(int(value)) > 1", "delete where count(1) > 0", "select key where upper(group_concat(key, ',')) = 'A'",
+		"select key where key = 'a' & max(value) = 'x'", "put ('a', count(1))", "put (group_concat('a', ','), 'v')", "remove min('a')",
 	} {
 		out = append(out, c14Case{Stmt: q, Mutant: true, Fault: "aggregate / clause misuse detectable at plan time"})
 	}
